@@ -30,6 +30,14 @@ CHECKS = [
          technique='TLA+ I-layer Loader.tla (pre-scan with file cursor, seek, second loop, division, M filter, C insertion) model-checked by TLC for all files in bound x both flags; every model file loaded by the real _load_base_structures and judged by TLC (TrLoader: same structures in order, rescaled by 1/(1-P(M))); real queue streams with/without --skip_brute, loaded grammars with/without --all_lower, and pcfg_guesser.py start/--load pairs (flags from the save file) validated by TrLoader',
          text='The cursor logic is exhaustively checked on the model (Markov line first/middle/last/absent/alone); the same files go through the real loader; stream-, grammar- and CLI-level traces are accepted or rejected by the TLA+ P-layer.',
          note='Loaded probabilities are rationalised (limit_denominator 64) for TLC, rescaling compared with relative 1e-9; float near-ties (1e-12) count as ties for the order clause.'),
+    dict(pid='C17', cat=MC, design='5/C17',
+         technique='TLC on Expand.tla with the PRINCE loop (constant PassLimit) for all runs of single-unit pre-terminals x all N; TLC on PTQueue for the order; real create_prince_wordlist / prince_ling.py runs (stdout and -o file, both --all_lower settings) validated by TrPTQ (order, each pre-terminal once) and TrExpand (product, first-N prefix, file = stdout)',
+         text='Order and exactly-once come from the queue model; the --size loop is model-checked with and without the limit being passed down; every N on generated Prince grammars is run on the real code and judged by the TLA+ trace specs.',
+         note='As C01/C04. Prince grammars are generated (float and dyadic), not only trainer-produced.'),
+    dict(pid='C20', cat=MC, design='5/C20',
+         technique='TLA+ I-layer EditRules.tla (label arithmetic, three-way keep condition, terminal-set filter) model-checked by TLC against the P-layer that judges structures by the true lengths of the strings their labels stand for; real edit_rules.py subprocess runs + real guesser on the result validated by TrEdit (survivors identical and in order, only failing removed, kept pass, guess lengths, other files / --copy source untouched)',
+         text='The filter logic is exhaustively checked on the model for all min/max pairs, terminal sets and structure lists in bound (with the open finding C20-F12 as a named exclusion that must fail without it); the real tool is run on generated rulesets with random filter combinations.',
+         note='Regex semantics are Python re (booleans in the trace); digests compared in Python; the fate of the Markov structure under a length filter is treated as unspecified.'),
 ]
 
 NOT_YET = {
